@@ -267,7 +267,7 @@ def _scaled_err(u: dict, b: dict, perm_idx) -> dict:
 
 def replay_group(task):
     """One base (canonical stack) and all states of its behaviours: returns findings."""
-    tuning, base_stack, stacks = task
+    tuning, base_stack, stacks, count_base = task
     sc = _scene(tuning)
     out = {"violations": [], "cases": [], "worst": {}, "n": 0, "seam_straddled": 0, "w0": sc.w0, "cond": sc.weight_cond}
     base = sc.update(base_stack)
@@ -275,7 +275,7 @@ def replay_group(task):
     order = {(i, c): n for n, (i, c, _) in enumerate(base["comps"])}
     ang_b = base["innovation"][base["is_angular"]]
     # sigma points of the canonical stack: does the predicted azimuth straddle a seam?
-    for st in [base_stack, *stacks]:
+    for st in ([base_stack] if count_base else []) + list(stacks):
         u = base if st is base_stack else sc.update(st)
         out["n"] += 1
         cls = _classes(st)
@@ -326,7 +326,24 @@ def _spec_ok(res, what):
     return res
 
 
-def run(ctx: Ctx, only_stacks=None):
+ACTIONS = {
+    "res": ("Angles", ["PoseA", "PoseB", "AddTurnsA", "AddTurnsB", "MoveSeamA", "MoveSeamB", "Reduce", "Difference", "Recentre"]),
+    "mean": ("Angles", ["PoseCentre", "PoseFirst", "AppendMember", "Freeze", "Accumulate", "Locate", "MAddTurns", "MMoveSeam",
+                        "MSwap"]),
+    "obs": ("ObsGroup", ["PoseTuning", "PoseKinds", "PosePlacement", "PoseSubs", "AddTurns", "MoveSeam", "Reexpress",
+                         "Remodel", "Permute", "Update"]),
+}
+
+
+def _coverage(ctx: Ctx, res, which: str):
+    mod, need = ACTIONS[which]
+    missing = [a for a in need if res.coverage.get(f"{mod}!{a}", (0, 0))[1] == 0]
+    if missing:
+        raise tlc.MachineryError(f"{mod}.tla ({which}) actions never taken: {missing}")
+    ctx.extra.setdefault("action_coverage", {})[which] = {a: res.coverage[f"{mod}!{a}"][1] for a in need}
+
+
+def run(ctx: Ctx):
     from .. import sched
     sched.install()
     from resonaate.physics import constants as const
@@ -335,13 +352,13 @@ def run(ctx: Ctx, only_stacks=None):
     nproc = max(2, min(8, ctx.cpus // 2))
     pool = multiprocessing.get_context("fork").Pool(nproc)     # forked before any thread exists
     try:
-        _run(ctx, pool, only_stacks)
+        _run(ctx, pool)
     finally:
         pool.terminate()
         pool.join()
 
 
-def _run(ctx: Ctx, pool, only_stacks):
+def _run(ctx: Ctx, pool):
     import time
     t0 = time.time()
     phase = {}
@@ -379,8 +396,8 @@ def _run(ctx: Ctx, pool, only_stacks):
     f_obs = tl("ObsGroup", _cfg("ObsGroup", ctx), "obs")
     f_sim = tl("ObsGroup", _cfg("ObsGroup_sim", ctx), "obs_sim", workers=1, simulate=f"num={40 if q else 1500}", depth=10,
                seed=ctx.seed + 1)
-    f_res = tl("Angles", _cfg("Angles_res", ctx), "res")
-    f_mean = tl("Angles", _cfg("Angles_mean", ctx), "mean")
+    f_res = tl("Angles", _cfg("Angles_res", ctx), "res", coverage=not q)
+    f_mean = tl("Angles", _cfg("Angles_mean", ctx), "mean", coverage=not q)
     # thorough only: longer group words with action coverage, and the two spec mutants
     f_spec = None if q else tl("ObsGroup", _cfg("ObsGroup_spec", ctx), "obs_spec", coverage=True)
     f_mut = [] if q else [
@@ -407,7 +424,7 @@ def _run(ctx: Ctx, pool, only_stacks):
     tasks = []
     for tuning, base, stacks in groups.values():      # split big groups so the workers stay balanced
         for i in range(0, max(1, len(stacks)), 24):
-            tasks.append((tuning, base, stacks[i:i + 24]))
+            tasks.append((tuning, base, stacks[i:i + 24], i == 0))
     async_res = pool.map_async(replay_group, tasks, chunksize=1)
     phase["obsgroup_tlc_done"] = round(time.time() - t0, 1)
 
@@ -437,12 +454,9 @@ def _run(ctx: Ctx, pool, only_stacks):
     if f_spec is not None:
         spec = _spec_ok(f_spec.result(), "ObsGroup (two group actions)")
         ctx.add_tlc(spec, "ObsGroup.tla exhaustive with two group actions per behaviour (action property, invariants)")
-        need = ["PoseTuning", "PoseKinds", "PosePlacement", "PoseSubs", "AddTurns", "MoveSeam", "Reexpress", "Remodel",
-                "Permute", "Update"]
-        missing = [a for a in need if spec.coverage.get(f"ObsGroup!{a}", (0, 0))[1] == 0]
-        if missing:
-            raise tlc.MachineryError(f"ObsGroup.tla actions never taken: {missing}")
-        ctx.extra["obsgroup_action_coverage"] = {a: spec.coverage[f"ObsGroup!{a}"][1] for a in need}
+        _coverage(ctx, spec, "obs")
+        _coverage(ctx, res, "res")
+        _coverage(ctx, mean, "mean")
     killed = []
     for const_name, inv, fut in f_mut:
         r = fut.result()
@@ -485,7 +499,7 @@ def replay(ctx: Ctx, rp: dict):
     sched.install()
     r = rp["replay"]
     if "stack" in r:
-        out = replay_group((r["tuning"], A.canonical(r["stack"]), [r["stack"]]))
+        out = replay_group((r["tuning"], A.canonical(r["stack"]), [r["stack"]], True))
         for key, nontrivial in out["cases"]:
             ctx.case(key, nontrivial=True)
         for sig, what, rpl in out["violations"]:
